@@ -29,20 +29,21 @@ publish = false
 
 [dependencies]
 quinn-proto = { path = "%s/quinn-proto", default-features = false }
+quinn-udp = { path = "%s/quinn-udp", default-features = false }
 
 [patch.crates-io]
 tracing = { path = "%s/kani/shims/tracing" }
 """
 
 
-def dump_mir(logdir):
-    """(Re)generates the MIR dump of quinn-proto from the current working tree, built the same way
-    as for Kani: no default features, `tracing` replaced by the no-op shim (logging has an empty body)."""
+def dump_mir(logdir, crate="quinn-proto"):
+    """(Re)generates the MIR dump of quinn-proto (or quinn-udp) from the current working tree, built the same
+    way as for Kani: no default features, `tracing` replaced by the no-op shim (logging has an empty body)."""
     os.makedirs(MIRDIR, exist_ok=True)
-    out = os.path.join(MIRDIR, "quinn_proto.mir")
+    out = os.path.join(MIRDIR, crate.replace("-", "_") + ".mir")
     ws = os.path.join(BUILD, "mirws")
     os.makedirs(os.path.join(ws, "src"), exist_ok=True)
-    toml = MIRWS_TOML % (REPO, VERIF)
+    toml = MIRWS_TOML % (REPO, REPO, VERIF)
     if not os.path.exists(os.path.join(ws, "Cargo.toml")) or open(os.path.join(ws, "Cargo.toml")).read() != toml:
         open(os.path.join(ws, "Cargo.toml"), "w").write(toml)
     open(os.path.join(ws, "src", "lib.rs"), "w").write("")
@@ -52,29 +53,29 @@ def dump_mir(logdir):
     p = os.path.join(tdir, "debug", ".fingerprint")
     if os.path.isdir(p):
         for e in os.listdir(p):
-            if e.startswith("quinn-proto-"):
+            if e.startswith(crate + "-"):
                 shutil.rmtree(os.path.join(p, e), ignore_errors=True)
     env = dict(os.environ, CARGO_TARGET_DIR=tdir, CARGO_NET_OFFLINE="true")
     env.pop("RUSTFLAGS", None)
     t0 = time.time()
     with open(out, "w") as fo, open(os.path.join(logdir, "mir_dump.log"), "w") as fe:
-        rc = subprocess.call(["cargo", "+nightly", "rustc", "--offline", "-p", "quinn-proto", "--lib", "--",
+        rc = subprocess.call(["cargo", "+nightly", "rustc", "--offline", "-p", crate, "--lib", "--",
                               "-Zunpretty=mir", "-Zmir-opt-level=2", "-Zinline-mir=yes", "-C", "overflow-checks=on", "-C", "debug-assertions=off"],
                              cwd=ws, stdout=fo, stderr=fe, env=env)
-    if rc != 0 or os.path.getsize(out) < 100000:
+    if rc != 0 or os.path.getsize(out) < 20000:
         raise RuntimeError("MIR dump failed (rc=%d), see %s" % (rc, os.path.join(logdir, "mir_dump.log")))
     return out, time.time() - t0
 
 
-def load(logdir):
-    if "funcs" not in _cache:
-        path, dt = dump_mir(logdir)
+def load(logdir, crate="quinn-proto"):
+    if ("funcs", crate) not in _cache:
+        path, dt = dump_mir(logdir, crate)
         t0 = time.time()
-        _cache["funcs"] = mir2smt.parse_mir(path)
-        _cache["enums"] = mir2smt.scan_enums(os.path.join(REPO, "quinn-proto", "src"))
-        _cache["dump_s"] = dt
-        _cache["parse_s"] = time.time() - t0
-    return _cache["funcs"], _cache["enums"]
+        _cache[("funcs", crate)] = mir2smt.parse_mir(path)
+        _cache[("enums", crate)] = mir2smt.scan_enums(os.path.join(REPO, crate, "src"))
+        _cache["dump_s"] = _cache.get("dump_s", 0) + dt
+        _cache["parse_s"] = _cache.get("parse_s", 0) + time.time() - t0
+    return _cache[("funcs", crate)], _cache[("enums", crate)]
 
 
 class Ctx:
@@ -313,9 +314,9 @@ def run(prop, tier, logdir, only=None):
     qs = [q for q in e2spec.QUERIES if (prop in q["props"] if only is None else q["name"] in only) and (tier == "thorough" or q.get("tier", "quick") == "quick")]
     if not qs:
         return []
-    funcs, enums = load(logdir)
     results = []
     for q in qs:
+        funcs, enums = load(logdir, q.get("crate", "quinn-proto"))
         r = check_query(q, funcs, enums, tier, logdir)
         r["engine"] = "mir2smt/z3"
         if r["verdict"] == "candidate":
@@ -381,6 +382,7 @@ def setup():
     os.makedirs(logdir, exist_ok=True)
     try:
         dump_mir(logdir)
+        dump_mir(logdir, "quinn-udp")
         print("MIR dump ok")
         return 0
     except Exception as e:  # noqa
